@@ -8,6 +8,7 @@ import Nstd.Life.LemmasCopy
 import Nstd.Life.LemmasCopyNode
 import Nstd.Life.LemmasSetSelf
 import Nstd.Life.LemmasRefine
+import Nstd.Life.LemmasCount
 /-
   Property theorems of the Life area.
 
@@ -38,6 +39,26 @@ theorem lifecycle_ok (ops : List Op) :
   obtain ⟨i2, t2⟩ := execAll_ok i1 destroyAll hd
   obtain ⟨hn, ha⟩ := destroyAll_effect i1 hd
   exact ⟨st', hd, chkOf st', trace_from_empty (t1.trans t2), clean_of_empty i2 hn ha⟩
+
+/-- C04 `exactly_once`.  The counting form of `lifecycle_ok`: in the complete log of EVERY history (construction of
+    the variables, the operations, the destructors), for every object location the number of constructions equals
+    the number of destructions (and by acceptance they alternate: construct, destroy, construct, ...), every block
+    id is allocated at most once, and freed exactly as often as it is allocated. -/
+theorem exactly_once (ops : List Op) :
+    ∃ st', execAll (run init ops) destroyAll = some st' ∧
+      (∀ l, ctorCount l st'.log = dtorCount l st'.log) ∧
+      (∀ b, allocCount b st'.log ≤ 1 ∧ allocCount b st'.log = freeCount b st'.log) := by
+  obtain ⟨st', hd, c, hrun, hclean⟩ := lifecycle_ok ops
+  refine ⟨st', hd, ?_, ?_⟩
+  · intro l
+    have := Chk.run_objects l st'.log Chk.init c hrun
+    simpa [Chk.init, b2n, hclean.1 l] using this
+  · intro b
+    have := Chk.run_blocks b st'.log Chk.init c hrun (by intro x hx; simp [Chk.init] at hx)
+    simp only [Chk.init, Option.isSome_none, b2n, Bool.false_eq_true, if_false, Nat.add_zero, hclean.2 b] at this
+    constructor
+    · rw [this.2]; split <;> omega
+    · exact this.1
 
 /-- C04 `no_fault`.  In every reachable state every operation is either rejected by its guard (`bad-op`:
     index outside the container, unknown variable - the harness refuses the same lines) or executes all its
